@@ -117,7 +117,77 @@ type CLICase struct {
 	// Attached: another pair of states (see evalAttached): an index and a foreign key over columns
 	// that the patterns exclude, present on both sides.
 	Attached bool `json:"attached,omitempty"`
+	// Composite: in the attached scenario the index and the foreign key have two columns, and the
+	// excluded column is the second one of each.
+	Composite bool `json:"composite,omitempty"`
 }
+
+var attachedSetup2 = []string{
+	"CREATE TABLE keep (id integer NOT NULL PRIMARY KEY, k integer NOT NULL, v text NULL)",
+	"CREATE UNIQUE INDEX keep_id_k ON keep (id, k)",
+	"CREATE INDEX idx_v ON keep (k, v)",
+	"CREATE TABLE shared (id integer NOT NULL PRIMARY KEY, a integer NULL, shown integer NULL, CONSTRAINT fk_shown FOREIGN KEY (a, shown) REFERENCES keep (id, k))",
+	"INSERT INTO keep VALUES (1, 10, 'k1'), (2, 20, NULL)",
+	"INSERT INTO shared VALUES (1, 2, 20)",
+}
+
+const attachedHCL2 = `schema "main" {}
+table "keep" {
+  schema = schema.main
+  column "id" {
+    type = integer
+  }
+  column "k" {
+    type = integer
+  }
+  column "v" {
+    type = text
+    null = true
+  }
+  primary_key {
+    columns = [column.id]
+  }
+  index "keep_id_k" {
+    unique  = true
+    columns = [column.id, column.k]
+  }
+  index "idx_v" {
+    columns = [column.k, column.v]
+  }
+}
+table "shared" {
+  schema = schema.main
+  column "id" {
+    type = integer
+  }
+  column "a" {
+    type = integer
+    null = true
+  }
+  column "shown" {
+    type = integer
+    null = true
+  }
+  primary_key {
+    columns = [column.id]
+  }
+  foreign_key "fk_shown" {
+    columns     = [column.a, column.shown]
+    ref_columns = [table.keep.column.id, table.keep.column.k]
+    on_update   = NO_ACTION
+    on_delete   = NO_ACTION
+  }
+}
+table "hcl_only" {
+  schema = schema.main
+  column "id" {
+    type = integer
+  }
+  primary_key {
+    columns = [column.id]
+  }
+}
+`
 
 // Attached scenario: the database and the desired state agree on keep (with an index over keep.v)
 // and shared (with a foreign key on shared.shown); the desired state adds table hcl_only. Excluding
@@ -185,13 +255,17 @@ func evalAttached(c CLICase) (problems []string) {
 		return []string{"harness: " + err.Error()}
 	}
 	defer w.Close()
-	if err := w.Exec("db.sqlite", attachedSetup...); err != nil {
+	setup, hcl, nddl := attachedSetup, attachedHCL, 3
+	if c.Composite {
+		setup, hcl, nddl = attachedSetup2, attachedHCL2, 4
+	}
+	if err := w.Exec("db.sqlite", setup...); err != nil {
 		return []string{"harness: " + err.Error()}
 	}
 	to := "file://" + w.Path("desired.hcl")
-	os.WriteFile(w.Path("desired.hcl"), []byte(attachedHCL), 0o644)
+	os.WriteFile(w.Path("desired.hcl"), []byte(hcl), 0o644)
 	if c.Source == "db" {
-		ddl := append(append([]string(nil), attachedSetup[:3]...), "CREATE TABLE hcl_only (id integer NOT NULL PRIMARY KEY)")
+		ddl := append(append([]string(nil), setup[:nddl]...), "CREATE TABLE hcl_only (id integer NOT NULL PRIMARY KEY)")
 		if err := w.Exec("desired.sqlite", ddl...); err != nil {
 			return []string{"harness: " + err.Error()}
 		}
@@ -471,6 +545,7 @@ func cliCases(tier string) []CLICase {
 		for _, src := range []string{"hcl", "db"} {
 			for _, dev := range []bool{false, true} {
 				cs = append(cs, CLICase{Patterns: ps, Via: "flag", Dev: dev, Source: src, Attached: true})
+				cs = append(cs, CLICase{Patterns: ps, Via: "flag", Dev: dev, Source: src, Attached: true, Composite: true})
 			}
 		}
 	}
